@@ -601,6 +601,7 @@ type NodeSpec struct {
 	NoEvents, NoDelegate, NoConflict bool
 	WithMerge, WithAlive, WithPing   bool
 	Meta                             []byte
+	PreCreate                        func(ep *Endpoint) // the address exists (traffic can already arrive); the node has not been created yet
 }
 
 // Add creates and starts a real memberlist node.
@@ -643,6 +644,9 @@ func (c *Cluster) Add(spec NodeSpec) (*SimNode, error) {
 		spec.Mutate(conf)
 	}
 	n.Conf = conf
+	if spec.PreCreate != nil {
+		spec.PreCreate(n.EP)
+	}
 	m, err := memberlist.Create(conf)
 	if err != nil {
 		return nil, err
